@@ -40,6 +40,6 @@ def run(ctx):
         lc.record_and_validate(ctx, "TestRecordC08", {"VERIF_TRACES": 100, "VERIF_NT_FIXED": 1}, timeout_tlc=600, label="record/validate")
     else:
         lc.model_check(ctx, ["MC_c08a", "MC_c08a_t", "MC_c08b"], timeout=2400)
-        lc.record_and_validate(ctx, "TestRecordC08", {"VERIF_TRACES": 1200}, timeout_go=1500, timeout_tlc=2400,
+        lc.record_and_validate(ctx, "TestRecordC08", {"VERIF_TRACES": 1200, "VERIF_SYSLEN": 4}, timeout_go=1500, timeout_tlc=2400,
                                label="record/validate")
     return "model_checking"
